@@ -398,10 +398,15 @@ func (ps *PubSub) Channels() []string {
 	}
 
 	var channels []string
+	seen := make(map[string]struct{})
 	for _, sconn := range ps.conns {
 		sconn.mu.Lock()
 		for ient := range sconn.entries {
-			if !ient.pattern {
+			if ient.pattern {
+				continue
+			}
+			if _, ok := seen[ient.channel]; !ok {
+				seen[ient.channel] = struct{}{}
 				channels = append(channels, ient.channel)
 			}
 		}
@@ -420,10 +425,15 @@ func (ps *PubSub) ChannelsWithPatterns(pattern string) []string {
 	}
 
 	var channels []string
+	seen := make(map[string]struct{})
 	for _, sconn := range ps.conns {
 		sconn.mu.Lock()
 		for ient := range sconn.entries {
-			if match.Match(ient.channel, pattern) {
+			if ient.pattern || !match.Match(ient.channel, pattern) {
+				continue
+			}
+			if _, ok := seen[ient.channel]; !ok {
+				seen[ient.channel] = struct{}{}
 				channels = append(channels, ient.channel)
 			}
 		}
@@ -467,7 +477,7 @@ func (ps *PubSub) Numsub(channel string) int {
 	for _, sconn := range ps.conns {
 		sconn.mu.Lock()
 		for ient := range sconn.entries {
-			if ient.channel == channel {
+			if !ient.pattern && ient.channel == channel {
 				result++
 			}
 		}
